@@ -161,9 +161,10 @@ func cmdCheck(argv []string) int {
 			continue
 		}
 		violations++
-		replay := writeReplay(*prop, rep, byName[rep.Name])
+		rr := tryReplay(*prop, rep, byName[rep.Name])
+		replay := writeReplay(*prop, rep, byName[rep.Name], rr)
 		suffix := ""
-		if byName[rep.Name] == nil || byName[rep.Name].Result == nil || byName[rep.Name].Result.Status != "sat" || !replayConfirmed(replay) {
+		if !rr.Confirmed {
 			suffix = " no-failing-input-found"
 		}
 		fmt.Printf("VIOLATION property=%s replay=%s obligation=%s status=%s%s\n", *prop, replay, rep.Name, rep.Status, suffix)
@@ -193,10 +194,9 @@ func specShort(full string) string {
 	return full
 }
 
-func replayConfirmed(path string) bool { return false }
 
 // writeReplay writes the replay file of a failed obligation: the obligation, solver output, model and SMT script.
-func writeReplay(prop string, rep *OblReport, o *Obligation) string {
+func writeReplay(prop string, rep *OblReport, o *Obligation, rr *replayResult) string {
 	dir := filepath.Join("/verif/out", prop, "replay")
 	os.MkdirAll(dir, 0o755)
 	safe := strings.NewReplacer("/", "_", "(", "", ")", "", "*", "", "$", "_", "@", "_", ":", "_", "~", "-", " ", "_").Replace(rep.Name)
@@ -206,6 +206,11 @@ func writeReplay(prop string, rep *OblReport, o *Obligation) string {
 	path := filepath.Join(dir, safe+".txt")
 	var sb strings.Builder
 	fmt.Fprintf(&sb, "failed obligation: %s\nkind: %s\nfunction: %s\ncontract line: %s\nstatus: %s\n", rep.Name, rep.Kind, rep.Func, rep.Line, rep.Status)
+	if rr != nil && rr.Ran {
+		fmt.Fprintf(&sb, "replay on the real code: confirmed=%v test=%s\n--- go test output ---\n%s\n", rr.Confirmed, rr.TestFile, rr.Output)
+	} else {
+		fmt.Fprintf(&sb, "replay on the real code: no replay template for this obligation (no-failing-input-found)\n")
+	}
 	if o != nil {
 		fmt.Fprintf(&sb, "goal: %s\n", o.Goal.S)
 		if o.Result != nil {
